@@ -244,6 +244,18 @@ and stays a plain `contents-differ`. -/
 def taint (j : J) (table : Bytes) : List Bytes :=
   if j.unverified.contains table then j.tainted else table :: j.tainted
 
+/-- The row-prefix states a refused multi-row statement may have left behind (the known finding) are
+alternative worlds for the table; a later successful statement on the table changes every world the
+way it changes the table of the spec, so that the leftover is still recognised for what it is when
+the table is finally read back - instead of being taken for a new, unrelated difference. -/
+def advanceWorlds (j : J) (table : Bytes) (f : SDB → Option SDB) : List (Bytes × List (List Tuple.Val)) :=
+  j.prefixes.map fun (tbl, vals) =>
+    if tbl != table then (tbl, vals) else
+    let world : SDB := j.sdb.map fun x => if x.name == table then { x with rows := vals.map fun v => ⟨none, v⟩ } else x
+    match f world with
+    | some w' => (tbl, ((findTable w' table).map fun t => t.rows.map (·.vals)).getD vals)
+    | none => (tbl, vals)
+
 def applyStmt (j : J) (op : String) (stmt : Stmt) (outs : List String) : J × List String :=
   let short := (op.take 300).toString
   let out := outs.head?.getD ""
@@ -255,7 +267,11 @@ def applyStmt (j : J) (op : String) (stmt : Stmt) (outs : List String) : J × Li
   else
   match specStmt j.sdb stmt with
   | some sdb' =>
-    if out == "ok" then ({ j with sdb := sdb', prevSdb := j.sdb, lastStmt := some stmt, unverified := table :: j.unverified }, [])
+    if out == "ok" then
+      let isCreate := match stmt with | .createTable _ _ => true | _ => false
+      ({ j with sdb := sdb', prevSdb := j.sdb, lastStmt := some stmt,
+                unverified := if isCreate then j.unverified else table :: j.unverified,
+                prefixes := advanceWorlds j table (fun w => specStmt w stmt) }, [])
     else
       -- a valid statement was refused; its table may also have been changed; a refused CREATE TABLE
       -- (whatever the reason for refusing it) must not leave the table behind
@@ -426,7 +442,9 @@ def judgeLine (j : J) (op : String) (outs : List String) : J × List String :=
     if out == "panic" || out == "hang" then ({ j with stopped := true }, [vio j s!"db:{out}:{phase j}" s!"op=[{short}]"]) else
     match specInsert j.sdb tbl cs rows with
     | some sdb' =>
-      if out == "ok" then ({ j with sdb := sdb', prevSdb := j.sdb, lastStmt := none, unverified := tbl :: j.unverified }, [])
+      if out == "ok" then
+        let worlds := advanceWorlds j tbl (fun w => specInsert w tbl cs rows)
+        ({ j with sdb := sdb', prevSdb := j.sdb, lastStmt := none, unverified := tbl :: j.unverified, prefixes := worlds }, [])
       else ({ j with tainted := taint j tbl }, [vio j s!"db:valid-statement-refused:{phase j}" s!"got=[{out}] op=[{short}]"])
     | none =>
       if out == "ok" then (j, [vio j "db:invalid-statement-accepted" s!"op=[{short}]"])
